@@ -326,6 +326,20 @@ def agree(s, F, c, G, CI):
 
 
 LEMMAS.update({
+    # corollary material for "the list always contains the FCFS notation": the first-come-first-served levels FC (contracts.
+    # common_c: FC_def, the characterisation proved for BpSeq.fcfs) are a proper greedy-stable assignment, so by the
+    # completeness clause of all_dot_brackets their painting is a member.  Proved by SMT.
+    "fcfs_levels_are_proper_and_greedy_stable": {
+        "kind": "smt", "params": ["R"], "shapes": ["list[tuple[int,int,int]]"],
+        "requires": ["FC_def(R)", "forall(lambda a: implies(0 <= a and a < len(R), FC(a) < 30))"],
+        "steps": ["define tg(x, l) = True",
+                  "let FCL = [FC(a) for a in range(len(R))]",
+                  "forall a, b | assert implies(0 <= b and b < a and a < len(R) and cross(R, a, b), taken(a, FC(b)))"
+                  " | assert implies(0 <= b and b < a and a < len(R) and cross(R, a, b), FC(a) != FC(b))",
+                  "forall a, l | assert implies(0 <= a and a < len(R) and 0 <= l and l < FC(a), taken(a, l))"
+                  " | assert implies(tg(a, l) and 0 <= a and a < len(R) and 0 <= l and l < FC(a), "
+                  "exists(lambda b: 0 <= b and b < len(R) and cross(R, a, b) and FC(b) == l))"],
+        "ensures": ["proper(R, FCL)", "greedy_stable(R, FCL)"]},
     # every finite list can be sorted by a key: srt(c, .) rearranges the positions of component c so that the levels F do not
     # decrease.  ASSUMED (mathematical fact; srt / srti are otherwise unconstrained symbols, one pair per component).
     "sorted_rearrangement": {"kind": "definition", "params": ["C", "F", "c"],
